@@ -1,12 +1,54 @@
 import AcraModel.Sql.Literal
 import AcraModel.Sql.Ident
 import Driver.C13Expr
+import AcraModel.Sql.Forms
 /-! Driver ops for C13 (re-serialisation): literal codec. -/
 namespace Driver.C13
 open AcraModel AcraModel.Sql
 
+/-- hex of a string's UTF-8 bytes (symbols like `','` contain the separators of the table format) -/
+def hexS (s : String) : String := hexOf s.toUTF8.toList
+
+/-- `forms.prods`: the regenerated grammar productions, one token per production:
+`kind;rule;alt;top;sym:field:nullable,…;field:zeroness,…` (symbols in hex; `-` for an empty list) -/
+def formsProds : String :=
+  let row (r : String × String × Nat × Bool × List (String × String × Bool) × List (String × String × String)) : String :=
+    let syms := r.2.2.2.2.1.map fun s => s!"{hexS s.1}:{s.2.1}:{if s.2.2 then "1" else "0"}"
+    let fields := r.2.2.2.2.2.map fun f => s!"{f.1}:{f.2.1}"
+    let j (l : List String) := if l.isEmpty then "-" else ",".intercalate l
+    s!"{r.1};{r.2.1};{r.2.2.1};{if r.2.2.2.1 then "1" else "0"};{j syms};{j fields}"
+  " ".intercalate (AcraModel.Generated.SqlForms.productions.map row)
+
+/-- `forms.paths`: the regenerated print paths: `kind;idx;field:rel:values,…;printed,…` (condition fields in hex; values: the string values of the constants of an `eq`/`notin` condition, hex joined by `+`, or the dialect type) -/
+def formsPaths : String :=
+  let row (π : AcraModel.Sql.Forms.Path) : String :=
+    let j (l : List String) := if l.isEmpty then "-" else ",".intercalate l
+    let vals (c : AcraModel.Sql.Forms.Cond) : String :=
+      if c.rel == "eq" || c.rel == "notin" then
+        "+".intercalate ((c.arg.splitOn ",").filterMap fun n =>
+          (AcraModel.Generated.SqlForms.condConsts.find? (·.1 == n)).map (hexS ·.2))
+      else if c.rel == "dialect" then hexS c.arg else "-"
+    s!"{π.kind};{π.idx};{j (π.conds.map fun c => s!"{hexS c.field}:{c.rel}:{vals c}")};{j π.printed}"
+  " ".intercalate (AcraModel.Sql.Forms.paths.map row)
+
+/-- `forms.omissions`: (kind, path, field) a compatible production may fill and the path does not represent -/
+def formsOmissions : String :=
+  let l := AcraModel.Sql.Forms.omissions AcraModel.Sql.Forms.prods AcraModel.Sql.Forms.paths
+  if l.isEmpty then "-" else " ".intercalate (l.map fun o => s!"{o.1};{o.2.1};{o.2.2}")
+
 def handle (op : String) (args : List String) : Option String :=
   match op, args with
+  | "forms.prods", [] => some formsProds
+  | "forms.paths", [] => some formsPaths
+  | "forms.omissions", [] => some formsOmissions
+  | "forms.unreachable", [] => some (
+      let l := AcraModel.Sql.Forms.paths.filter fun π => !(AcraModel.Sql.Forms.prods.any fun p => AcraModel.Sql.Forms.compatible p π)
+      if l.isEmpty then "-" else " ".intercalate (l.map fun π => s!"{π.kind}/{π.idx}"))
+  | "forms.strictkinds", [] => some (" ".intercalate AcraModel.Sql.Forms.strictKinds)
+  | "forms.tableok", [] => some (if AcraModel.Sql.Forms.tableOK then "true" else "false")
+  | "forms.path", kind :: present => some (match AcraModel.Sql.Forms.formatPath ⟨kind, present, []⟩ with
+      | some π => toString π.idx
+      | none => "none")
   | "lit.enc", [h] => do
       let b ← ofHex h
       pure (hexOf (Literal.encodeBytesSQL b))
